@@ -62,6 +62,14 @@ fn main() {
                         g.scripted_dust();
                         g.snapshot(&mut wobs);
                     }
+                    if args[1] == "world" && h % 8 == 2 {
+                        g.scripted_stray_then_recover();
+                        g.snapshot(&mut wobs);
+                    }
+                    if args[1] == "world" && h % 8 == 1 {
+                        g.scripted_slashed_dust();
+                        g.snapshot(&mut wobs);
+                    }
                     if args[1] == "world" && h % 8 == 6 {
                         g.scripted_backlog();
                         g.snapshot(&mut wobs);
